@@ -64,11 +64,13 @@ def _worker(behs):
         plan = {"op": b["op"], "nodes": b["nodes"], "variant": b.get("_variant")}
         allsync = all(x["mode"] == "sync" for x in plan["nodes"])
         ni, nm = b.get("_ninstr", 1), b.get("_nmw", 0)
-        for cfgname in ("pool", "asyncio", "blocking-generic", "blocking-optimised"):
+        for cfgname in ("pool", "asyncio", "custom-runtime", "blocking-generic", "blocking-optimised"):
             rec = schedreplay.Recorder(ni, nm)
             try:
                 if cfgname == "pool":
                     div, _ = schedreplay.run_pool(plan, b, rec)
+                elif cfgname == "custom-runtime":
+                    div, _ = schedreplay.run_custom(plan, b, rec)
                 elif cfgname == "asyncio":
                     div, _ = schedreplay.run_asyncio(plan, b, rec)
                 else:
@@ -187,6 +189,7 @@ def run(chk, op=OP):
     replay(chk, behs)
     real_stage(chk, behs, rng, 400 if chk.quick else 4000)
     if op == "query":
+        submit_scenario(chk)
         # lists of objects, abstract types and merged sub-selections: GqlExec documents on the real deferring runtimes
         from checks import c04
         rich = c04.rich_behaviours(chk)
@@ -204,6 +207,81 @@ def run(chk, op=OP):
                         "errors are compared as a multiset of response paths (messages are not compared)"]
     return chk.finish(rule="every plan of <= 3 field instances x every completion order (exhaustive), seeded sample of 4-node plans, "
                            "each on 4 executor/runtime configurations; distinct = (plan, schedule) pairs")
+
+
+def submit_scenario(chk):
+    """Resolvers that hand work to the runtime themselves (info.runtime.submit / map_value: "pool-submitted tasks") on
+    DEFAULT-CONSTRUCTED runtimes, as graphql() / the documentation create them: plain functions are then run in worker threads
+    by the asyncio runtime, and submit() is called from there.  Same data and errors everywhere."""
+    import asyncio
+    from py_gql import build_schema, process_graphql_query
+    from py_gql.exc import ResolverError
+    from py_gql.execution.runtime import AsyncIORuntime, BlockingRuntime, ThreadPoolRuntime
+    sdl = "type Query { a: Int  b: B  c: Int  e: Int  l: [Int] } type B { x: Int  y: Int }"
+    q = "{ a b { x y } c e l }"
+
+    def make():
+        schema = build_schema(sdl)
+
+        def slow(v):
+            return v
+
+        def failing():
+            raise ResolverError("submitted task failed")
+
+        @schema.resolver("Query.a")
+        def res_a(root, ctx, info):
+            return info.runtime.submit(slow, 1)
+
+        @schema.resolver("Query.b")
+        def res_b(root, ctx, info):
+            return info.runtime.map_value(info.runtime.submit(slow, {"x": 2}), lambda v: dict(v, y=3))
+
+        @schema.resolver("Query.c")
+        def res_c(root, ctx, info):
+            return info.runtime.map_value(info.runtime.submit(slow, 4), lambda v: v + 1)
+
+        @schema.resolver("Query.e")
+        def res_e(root, ctx, info):
+            return info.runtime.submit(failing)
+
+        @schema.resolver("Query.l")
+        def res_l(root, ctx, info):
+            return info.runtime.gather_values([info.runtime.submit(slow, 7), 8, info.runtime.submit(slow, 9)])
+        return schema
+    want = ([["a", 1], ["b", [["x", 2], ["y", 3]]], ["c", 5], ["e", None], ["l", [7, 8, 9]]], [("e",)])
+
+    def norm(res):
+        def plain(v):
+            if isinstance(v, dict):
+                return [[k, plain(x)] for k, x in v.items()]
+            if isinstance(v, list):
+                return [plain(x) for x in v]
+            return v
+        return plain(res.data), sorted(tuple(e.path or ()) for e in res.errors)
+    runs = {}
+    for cfg in ("blocking", "asyncio-default", "pool-default"):
+        try:
+            if cfg == "blocking":
+                got = norm(process_graphql_query(make(), q, runtime=BlockingRuntime()))
+            elif cfg == "pool-default":
+                rt = ThreadPoolRuntime()
+                got = norm(process_graphql_query(make(), q, runtime=rt).result(timeout=60))
+            else:
+                async def main():
+                    return await asyncio.wait_for(process_graphql_query(make(), q, runtime=AsyncIORuntime()), 60)
+                loop = asyncio.new_event_loop()
+                try:
+                    got = norm(loop.run_until_complete(main()))
+                finally:
+                    loop.close()
+        except BaseException as e:
+            chk.diverge("submit/%s/raises/%s" % (cfg, type(e).__name__), {"error": repr(e)[:300], "query": q}, "request whose resolvers submit work to the runtime fails as a whole")
+            continue
+        chk.traces += 1
+        runs[cfg] = got
+        if got != want:
+            chk.diverge("submit/%s/result-differs" % cfg, {"expected": want, "got": got, "query": q}, "result of resolvers that submit work to the runtime differs from the reference")
 
 
 def replay_file(path):
